@@ -16,7 +16,7 @@ CONSTANTS
   MaxTicks = 1
   MaxClears = 0
   MaxWaits = 1
-  MaxSetNames = 2
+  MaxSetNames = 1
 INVARIANT Emit
 INVARIANT GenInv
 CHECK_DEADLOCK FALSE
